@@ -15,6 +15,7 @@ mod c_gen;
 mod c_parse;
 mod c_scope;
 mod c_round;
+mod c_diag;
 
 fn main() {
     colored::control::set_override(false);
@@ -32,6 +33,9 @@ fn main() {
         "record-relayout" => c_lex::record_relayout(rest),
         "record-scope" => c_scope::record(rest),
         "roundtrip" => c_round::main(rest),
+        "replay-listing" => c_diag::replay_listing(rest),
+        "plant-scope" => c_diag::plant_scope(rest),
+        "plant-type" => c_diag::plant_type(rest),
         "replay-scope" => c_scope::replay(rest),
         "replay-parse" => c_parse::replay(rest),
         "gen-programs" => c_gen::main(rest),
@@ -41,6 +45,7 @@ fn main() {
             "pipeline" => c_pipe::worker(&rest[1..]),
             "record" => c_pipe::record_worker(&rest[1..]),
             "roundtrip" => c_round::worker(),
+            "plant-type" => c_diag::plant_type_worker(),
             k => {
                 eprintln!("unknown worker kind {k}");
                 std::process::exit(2);
@@ -49,6 +54,20 @@ fn main() {
         "run-text" => {
             let text = rest[0].replace("\\n", "\n");
             println!("{}", c_pipe::record_case(&serde_json::json!({"text": text, "origin": "cli", "steps": false}).to_string(), 1000));
+        }
+        "show-parse-error" => {
+            colored::control::set_override(true);
+            let text: &'static str = tj::leak(&rest[0].replace("\\n", "\n"));
+            let toks = tokenizer::tokenize(None, text).unwrap();
+            let toks: &'static [token::Token<'static>] = Box::leak(toks.into_boxed_slice());
+            match parser::parse(None, text, toks, &["u"]) {
+                Ok(_) => println!("ok"),
+                Err(e) => {
+                    for x in e {
+                        println!("{:?}\n{:?}\n{:?}", x.message, diag::marked_lines(&x.message), diag::error_range(text, &x));
+                    }
+                }
+            }
         }
         "show-error" => c_lex::show_error(rest),
         other => {
